@@ -312,6 +312,56 @@ func JSONStatus(b []byte) (complete, dead bool) {
 	return p.Complete(), false
 }
 
+// JSONCompletion returns, for a proper viable prefix b of a JSON text, b extended by a
+// shortest suffix that makes it a JSON text (nil when b is dead or already complete).
+// The explicit-state searches check it next to every explored transition, so that a
+// scanner which wrongly dies on a byte is confronted with a document the reference accepts.
+func JSONCompletion(b []byte) []byte {
+	p := NewJPDA()
+	for _, c := range b {
+		p.Step(c)
+		if p.Dead() {
+			return nil
+		}
+	}
+	if p.Complete() {
+		return nil
+	}
+	type node struct {
+		p   *JPDA
+		suf []byte
+	}
+	key := func(q *JPDA) string {
+		return fmt.Sprintf("%d|%s|%v|%s|%d", q.st, q.stack, q.strKey, q.lit, q.litPos)
+	}
+	seen := map[string]bool{key(p): true}
+	frontier := []node{{p, nil}}
+	alphabet := []byte("\"0]}:truefalsn")
+	for depth := 0; depth < 24 && len(frontier) > 0; depth++ {
+		var next []node
+		for _, n := range frontier {
+			for _, c := range alphabet {
+				q := *n.p
+				q.stack = append([]byte{}, n.p.stack...)
+				q.Step(c)
+				if q.Dead() {
+					continue
+				}
+				suf := append(append([]byte{}, n.suf...), c)
+				if q.Complete() {
+					return append(append([]byte{}, b...), suf...)
+				}
+				if k := key(&q); !seen[k] {
+					seen[k] = true
+					next = append(next, node{&q, suf})
+				}
+			}
+		}
+		frontier = next
+	}
+	return nil
+}
+
 // ---------------------------------------------------------------- ordered decoding
 
 // JVal is an order-preserving JSON tree.
